@@ -9,7 +9,8 @@ FMT = ("EventManager instances: (trigger vector, bus.adr, bus.we, bus.dat_w, bus
        "bus.adr, bus.we, bus.dat_w) per manager; clients: (cycle, stimulus..., bus.adr, bus.we, bus.dat_w, bus.re) with "
        "stimulus = Timer: none, UART: sink.valid, sink.data, source.ready, GPIOIn: pads")
 
-N_STALE = "C15-multiword-pending-stale-words"     # not a listed finding: logged as a note (see probes)
+N_STALE = "C15-multiword-pending-stale-words"     # not a finding: logged as a note (see probes)
+F_GPIO = "C15-gpio-change-back-to-back"           # reported to the coordinator; probed once it is listed
 
 
 # ---------------------------------------------------------------------------------------------------------
@@ -83,8 +84,8 @@ def mk_gpio(npads, dw, tristate=False, ordering="big"):
                 state["v"] ^= 1 << k
         return (state["v"],)
 
-    return L.ClientInst("%s(%d pads,irq)" % ("GPIOTristate" if tristate else "GPIOIn", npads), core, ["r"] * npads, dw,
-                        [pin], gen_stim, None, ordering)
+    return L.GpioInst("%s(%d pads,irq)" % ("GPIOTristate" if tristate else "GPIOIn", npads), core, npads, dw,
+                      [pin], gen_stim, ordering)
 
 
 # ---------------------------------------------------------------------------------------------------------
@@ -115,7 +116,7 @@ def jobs(tier):
     #      quick: four mixes covering every kind in both bit positions (three without read letters, one complete);
     #      thorough: all 16 ordered mixes with reads, both bus widths
     if quick:
-        A(lambda: L.EvInst(["p", "r"], 8, reads=False, extra=False, tag="/no reads"))
+        A(lambda: L.EvInst(["p", "r"], 8, reads=False, extra=False, en_masks=[0, 1, 2], tag="/no reads, enable none|one"))
         A(lambda: L.EvInst(["f", "l"], 32, reads=False, extra=False, tag="/no reads"))
         A(lambda: L.EvInst(["r", "f"], 32, reads=False, extra=False, en_masks=[0, 3], tag="/no reads, enable all|none"))
         A(lambda: L.EvInst(["l", "p"], 8))
@@ -140,7 +141,7 @@ def jobs(tier):
             A(lambda o=ordering: L.EvInst(["l", "p", "l"], 1, o, disciplined=False, reads=False, extra=False))
             A(lambda o=ordering: L.EvInst(["p", "p"], 8, o))
     # ---- SharedIRQ
-    A(lambda: L.SharedInst([["p"], ["l"]], 8))
+    A(lambda: L.SharedInst([["p"], ["l"]], 8, small=quick))
     if not quick:
         A(lambda: L.SharedInst([["r"], ["f"]], 32))
         A(lambda: L.SharedInst([["p"], ["l"], ["l"]], 8))
@@ -174,16 +175,102 @@ def jobs(tier):
     return J
 
 
-def correspond(ctx):
-    ctx.rule = ("one (state, letter) transition of the real EventManager+CSRBank netlist compared with the model; "
-                "non-trivial = a bus write, an active clear, a pending source or irq high in that cycle")
-    ctx.jobs = jobs(ctx.tier)
-    dis, bad = run_jobs(ctx, ctx.jobs)
+def corpus_cases():
+    import os, json, glob
+    d = os.path.join(os.path.dirname(os.path.dirname(os.path.dirname(os.path.abspath(__file__)))), "corpus", "C15")
+    for f in sorted(glob.glob(os.path.join(d, "*.json"))):
+        yield os.path.basename(f), json.load(open(f))
+
+
+def corpus_instance(case):
+    inst = L.EvInst(case["kinds"], case["dw"], case.get("ordering", "big"), trigs=[0],
+                    disciplined=case.get("disciplined", True), tag="/corpus")
+    v = inst.view
+
+    def adr(a):
+        if a == "idle":
+            return v.idle_adr()
+        if a == "other":
+            return (1 << L.PAGE_BITS) | v.bus_adr(v.local_index(1, 0))
+        return v.bus_adr(v.local_index("SPE".index(a[0]), int(a[1:])))
+    return inst, [(l[0], adr(l[1]), l[2], l[3], l[4]) for l in case["trace"]]
+
+
+def run_corpus(ctx):
+    """Corpus first: each stored trace on the real code (monitor armed) and on the model."""
+    from explore import Disagreement, impl_step, _masked_equal
+    dis = []
+    for fname, case in corpus_cases():
+        inst, trace = corpus_instance(case)
+        mon = inst.monitor()
+        n = inst.netlist
+        impl, msg = [], None
+        for t, letter in enumerate(trace):
+            outs = impl_step(inst, letter)
+            impl.append(outs)
+            m = mon.observe(letter, outs)
+            if m and msg is None:
+                msg = (t, m)
+        ctx.lean.open(inst.lean_open)
+        model = ctx.lean.run([inst.model_letter(l) for l in trace])
+        ctx.lean.close_session()
+        ctx.cov.add_instance("corpus/" + fname, states=0, transitions=len(trace), nontrivial=len(trace),
+                             exhaustive=False, mode="B")
+        for t in range(len(trace)):
+            if not _masked_equal(inst, impl[t], model[t]):
+                d = Disagreement(inst, trace[:t + 1], t, impl[t], model[t])
+                d.inst = None
+                dis.append(d)
+                break
+        if msg is not None:
+            d = Disagreement(inst, trace[:msg[0] + 1], msg[0], impl[msg[0]], None, kind="monitor:" + msg[1])
+            d.inst = None
+            dis.append(d)
     return dis
 
 
+def correspond(ctx):
+    ctx.rule = ("one (state, letter) transition of the real EventManager+CSRBank netlist compared with the model; "
+                "non-trivial = a bus write, an active clear, a pending source or irq high in that cycle")
+    ctx.assumptions = [
+        "process sources: the first trigger sample is compared with 0 (reset value of trigger_d), so a trigger that is "
+        "high (rising) at reset counts as an event - this is what the code does (Timer/UART raise one event after reset)",
+        "status of pulse sources reads 0 (documented by the class)",
+        "more sources than CSR bus bits: a clear addressed to bit k means the most recent value written to k's word; "
+        "software writes every word of `pending` before the committing word (generated accessors do)",
+        "client instances (Timer/UART/GPIO): the trigger waveform is sampled from the real trigger logic; pending, "
+        "clear, irq and read values are the model's own prediction"]
+    dis = run_corpus(ctx)
+    ctx.jobs = jobs(ctx.tier)
+    d2, bad = run_jobs(ctx, ctx.jobs)
+    return dis + d2
+
+
 def search(ctx, disagreements, proof_info):
-    return generic_search(ctx, disagreements, getattr(ctx, "jobs", None) or jobs(ctx.tier), FMT)
+    """Failing-input search: shortest first.  (1) every disagreement / monitor trace is replayed on the real code
+    with the lost-event monitor armed (plus two idle cycles) and shrunk; (2) random search on every instance."""
+    from explore import shrink
+    all_jobs = getattr(ctx, "jobs", None) or jobs(ctx.tier)
+    cands = sorted([d for d in disagreements if getattr(d, "job", None) is not None], key=lambda d: len(d.trace))
+    cands = [d for d in cands if not d.kind.startswith("monitor:")][:12] + [d for d in cands if d.kind.startswith("monitor:")]
+    made = {}
+    for d in cands:
+        try:
+            inst = made.get(d.job) or made.setdefault(d.job, all_jobs[d.job].make())
+        except Exception:
+            continue
+        trace = [tuple(l) for l in d.trace]
+        tail = []
+        if isinstance(inst, L.EvInst):
+            tail = [(0, inst.view.idle_adr(), 0, 0, 0)] * 2
+        r = replay_with_monitor(inst, trace + tail)
+        if r:
+            t, msg = r
+            small = shrink(inst, (trace + tail)[:t + 1])
+            r2 = replay_with_monitor(inst, small)
+            return {"instance": inst.name, "trace": [list(l) for l in small], "monitor": (r2 or r)[1],
+                    "letter_format": FMT}
+    return generic_search(ctx, disagreements, all_jobs, FMT)
 
 
 # ---------------------------------------------------------------------------------------------------------
@@ -209,15 +296,48 @@ def stale_word_witness():
     return inst, trace
 
 
+def gpio_change_witness():
+    """GPIOIn(1 pad, with_irq) in Change mode: the pad changes in two consecutive cycles (a one-cycle glitch after
+    the synchroniser) while software acknowledges an earlier event so that the clear lands in the second of those
+    cycles.  The change pulse `in ^ in_d` stays high for two cycles = one rising edge for the EventSourceProcess, so
+    the change that coincides with the clear is not retained.  Returns (lost, description)."""
+    inst = mk_gpio(1, 8)
+    v, n, core = inst.view, inst.netlist, inst.core
+    ids = [id(c) for c in inst.top.bank.simple_csrs]
+    mode = ids.index(id(core._mode.simple_csrs[0]))
+    pend, idle = v.bus_adr(v.local_index(1, 0)), v.idle_adr()
+    seq = [(0, mode, 1, 1), (0, idle, 0, 0), (1, idle, 0, 0)] + [(1, idle, 0, 0)] * 4 + \
+          [(0, idle, 0, 0), (1, idle, 0, 0), (1, pend, 1, 1)] + [(1, idle, 0, 0)] * 4
+    log = []
+    for t, (pad, adr, we, dat) in enumerate(seq):
+        inst.apply((t, pad, adr, we, dat, 0))
+        inst.sample()
+        o = inst.last_obs
+        log.append((o["trig"][0], o["clear"][0], o["pend"][0]))
+        n.tick()
+    both = [t for t, (tr, cl, _) in enumerate(log) if tr and cl]
+    lost = bool(both) and all(p == 0 for (_, _, p) in log[both[0] + 1:])
+    return lost, ("GPIOIn change mode, pad 1->0->1 in consecutive cycles, clear in the second: (trigger, clear, "
+                  "pending) per cycle = %s" % (log[7:],))
+
+
 def probes(ctx):
     out = []
+    listed = {e.get("id") for e in ctx.known}
+    # (1) multi-word pending, stale words: outside the accessor discipline (generated accessors always write every
+    #     word); DESIGN §7.C15 lists it as the hypothesis of the `_partial` theorem, not as a finding -> note only.
     inst, trace = stale_word_witness()
     r = replay_with_monitor(inst, trace)
-    # Outside the accessor discipline (generated accessors always write every word); DESIGN §7.C15 lists it as the
-    # hypothesis of `clear_after_full_write` / the `_partial` theorems, not as a finding -> note only.
     ctx.cov.notes.append("%s: writing only the committing word of a multi-word pending register re-applies the stale "
                          "upper words of pending.r: %s" % (N_STALE, ("reproduces, cycle %d: %s" % r) if r else
                                                            "does not reproduce"))
+    # (2) GPIO change mode (client logic, not the EventManager): reported to the coordinator; a probe only once listed
+    lost, what = gpio_change_witness()
+    if F_GPIO in listed:
+        out.append((F_GPIO, lost, what))
+    else:
+        ctx.cov.notes.append("%s (not listed in known_findings.json, note only): %s: %s"
+                             % (F_GPIO, "reproduces" if lost else "does not reproduce", what))
     return out
 
 
